@@ -303,6 +303,8 @@ def anova_order2(shape, how, ykind, seed, r, aseed):
         return FAIL('not well-formed / wrong mode sizes: ' + msg)
     if not _ranks_ok(Y, r, False):
         return FAIL(f'TT-ranks {[G.shape[2] for G in Y[:-1]]} exceed {r}')
+    if not gen.finite(Y):
+        return FAIL('non-finite cores')
     need = 2 + sum(min(shape[i], shape[j]) for i in range(d - 1) for j in range(i + 1, d))
     if r < need:
         return TRIVIAL(f'rank {r} < {need}: only structure checked')
@@ -343,7 +345,7 @@ def _own_ridge(X, y, n, a, b, lamb):
 
 
 @clause('C13.anova_func.model', funcs=('anova_func.ANOVA_func', 'anova_func.anova_func', 'func.func_get', 'tensors.delta'))
-def anova_func_model(d, n, m, a, b, lamb, seed, ykind):
+def anova_func_model(d, n, m, a, b, lamb, seed, ykind, yscale=1.0):
     """ANOVA_func: coeffs == own ridge fit; func_get(X, cores(e=None)) == fitted constant + sum_k sum_{p>=1} c_k[p] T_p
     at random points of the box (with the class's own coefficients: rounding; with the own fit: conditioning-aware);
     anova_func with the default rounding e=1e-8 agrees within 1e-6."""
@@ -358,6 +360,7 @@ def anova_func_model(d, n, m, a, b, lamb, seed, ykind):
         y = 0.3 + sum(Pc.chebval((2. * X[:, k] - a - b) / (b - a), cf[k]) for k in range(d))
     else:
         y = np.cos(X.sum(axis=1)) * 2. + X[:, 0]
+    y = y * yscale                                     # the model is linear in the data: every statement below scales with it
     O = teneva.ANOVA_func(X.copy(), y.copy(), n, a, b, lamb)
     cfs = O.coeffs
     const, own, cond = _own_ridge(X, y, n, a, b, lamb)
@@ -448,6 +451,12 @@ def cases(tier, seed):
                     for yk in ('gauss', 'additive', 'smooth'):
                         yield 'C13.anova_func.model', dict(d=d, n=n, m=(6 + 2 * d) * n, a=a, b=b, lamb=lamb, seed=n + d,
                                                            ykind=yk)
+    for d in (2, 3):
+        for n in (3, 5):
+            for yscale in (1e-9, 1e-6, 1e-3, 1e3, 1e6):
+                for yk in ('additive', 'smooth'):
+                    yield 'C13.anova_func.model', dict(d=d, n=n, m=(6 + 2 * d) * n, a=-1., b=1., lamb=1e-7, seed=n + d, ykind=yk,
+                                                       yscale=yscale)
     for rep in range(200 if big else 40):
         shape = [int(g.integers(1, 6)) for _ in range(int(g.integers(2, 5)))]
         if int(np.prod(shape)) > 200:
